@@ -45,6 +45,26 @@ struct Ping {
     method: &'static str,
 }
 
+/// The same product through generated proxy methods: one method per (parameter type, error type).
+#[zlink_core::proxy(interface = "a", crate = "zlink_core")]
+trait ClassifyProxy {
+    async fn p0e0(&mut self) -> zlink_core::Result<Result<(), E1>>;
+    async fn p1e0(&mut self) -> zlink_core::Result<Result<AllOpt, E1>>;
+    async fn p2e0(&mut self) -> zlink_core::Result<Result<Value, E1>>;
+    async fn p3e0(&mut self) -> zlink_core::Result<Result<Strict, E1>>;
+    async fn p4e0(&mut self) -> zlink_core::Result<Result<Option<Strict>, E1>>;
+    async fn p0e1(&mut self) -> zlink_core::Result<Result<(), E2<'_>>>;
+    async fn p1e1(&mut self) -> zlink_core::Result<Result<AllOpt, E2<'_>>>;
+    async fn p2e1(&mut self) -> zlink_core::Result<Result<Value, E2<'_>>>;
+    async fn p3e1(&mut self) -> zlink_core::Result<Result<Strict, E2<'_>>>;
+    async fn p4e1(&mut self) -> zlink_core::Result<Result<Option<Strict>, E2<'_>>>;
+    async fn p0e2(&mut self) -> zlink_core::Result<Result<(), E0>>;
+    async fn p1e2(&mut self) -> zlink_core::Result<Result<AllOpt, E0>>;
+    async fn p2e2(&mut self) -> zlink_core::Result<Result<Value, E0>>;
+    async fn p3e2(&mut self) -> zlink_core::Result<Result<Strict, E0>>;
+    async fn p4e2(&mut self) -> zlink_core::Result<Result<Option<Strict>, E0>>;
+}
+
 #[derive(Clone, Debug)]
 struct Frame {
     text: String,
@@ -278,7 +298,7 @@ enum Got {
 }
 
 macro_rules! run_one {
-    ($P:ty, $E:ty, $declared:expr, $frame:expr, $path:expr) => {{
+    ($P:ty, $E:ty, $declared:expr, $frame:expr, $path:expr, $m:ident) => {{
         let f: &Frame = $frame;
         let wire = Wire::new(0, None);
         let mut bytes = Vec::new();
@@ -293,20 +313,31 @@ macro_rules! run_one {
         bytes.push(0);
         wire.arrive(&bytes);
         let mut conn = wire.connection();
-        if $path >= 2 {
+        if $path == 2 || $path == 3 {
             // the reply under test is the second frame of one arrival: the first one is taken off first
             match complete_or_stall(conn.receive_reply::<Value, E0>()) {
                 Some(Ok(Ok(_))) => {}
                 other => xplore::bug!("the leading success reply was not received as one: {other:?}"),
             }
         }
-        let r = if $path != 1 { complete_or_stall(conn.receive_reply::<$P, $E>()) } else { complete_or_stall(conn.call_method::<_, $P, $E>(&Call::new(Ping { method: "a.Ping" }))) };
-        let got = match r {
-            None => Got::Stall,
-            Some(Ok(Ok(r))) => Got::Success(format!("{r:?}")),
-            Some(Ok(Err(e))) => Got::MethodErr(format!("{e:?}")),
-            Some(Err(zlink_core::Error::VarlinkService(e))) => Got::ServiceErr(format!("{e:?}")),
-            Some(Err(_)) => Got::OtherErr,
+        let got = if $path == 4 {
+            // the generated proxy method (its success value is the output, not the whole reply)
+            match complete_or_stall(conn.$m()) {
+                None => Got::Stall,
+                Some(Ok(Ok(r))) => Got::Success(format!("{r:?}")),
+                Some(Ok(Err(e))) => Got::MethodErr(format!("{e:?}")),
+                Some(Err(zlink_core::Error::VarlinkService(e))) => Got::ServiceErr(format!("{e:?}")),
+                Some(Err(_)) => Got::OtherErr,
+            }
+        } else {
+            let r = if $path != 1 { complete_or_stall(conn.receive_reply::<$P, $E>()) } else { complete_or_stall(conn.call_method::<_, $P, $E>(&Call::new(Ping { method: "a.Ping" }))) };
+            match r {
+                None => Got::Stall,
+                Some(Ok(Ok(r))) => Got::Success(format!("{r:?}")),
+                Some(Ok(Err(e))) => Got::MethodErr(format!("{e:?}")),
+                Some(Err(zlink_core::Error::VarlinkService(e))) => Got::ServiceErr(format!("{e:?}")),
+                Some(Err(_)) => Got::OtherErr,
+            }
         };
         // the oracle, from the text of the frame
         let declared: &[&str] = $declared;
@@ -356,6 +387,9 @@ macro_rules! run_one {
             match (&got, &as_ok) {
                 (Got::Success(s), Some(r)) if *s == format!("{r:?}") => Ok(()),
                 (Got::OtherErr, None) => Ok(()),
+                // what a generated method makes of a success whose parameters are absent or do not
+                // fit its output type is C12's subject; here it must just not be an error reply
+                (Got::Success(_) | Got::OtherErr, _) if $path == 4 => Ok(()),
                 (Got::MethodErr(_) | Got::ServiceErr(_), _) => Err(("classify:success-reply-reported-as-error", format!("{got:?}"))),
                 (g, Some(r)) => Err(("classify:success-reply-mishandled", format!("expected Ok(Ok({r:?})), got {g:?}"))),
                 (g, None) => Err(("classify:undecodable-success-not-an-error", format!("parameters do not fit the expected type, yet {g:?}"))),
@@ -365,7 +399,7 @@ macro_rules! run_one {
     }};
 }
 
-const PATHS: [&str; 4] = ["receive_reply", "call_method", "receive_reply, as the second frame of one arrival", "receive_reply, right after a reply that continues"];
+const PATHS: [&str; 5] = ["receive_reply", "call_method", "receive_reply, as the second frame of one arrival", "receive_reply, right after a reply that continues", "a generated proxy method"];
 const NP: usize = 5;
 const NE: usize = 3;
 
@@ -380,20 +414,20 @@ fn one(fr: &[Frame], i: u64, sink: &mut Sink<'_>) {
     const D: &[&str] = &["a.Unit", "a.St"];
     const NONE: &[&str] = &[];
     macro_rules! with_e {
-        ($P:ty) => {
+        ($P:ty, $m0:ident, $m1:ident, $m2:ident) => {
             match e {
-                0 => run_one!($P, E1, D, f, path),
-                1 => run_one!($P, E2<'_>, D, f, path),
-                _ => run_one!($P, E0, NONE, f, path),
+                0 => run_one!($P, E1, D, f, path, $m0),
+                1 => run_one!($P, E2<'_>, D, f, path, $m1),
+                _ => run_one!($P, E0, NONE, f, path, $m2),
             }
         };
     }
     let (verdict, got) = match p {
-        0 => with_e!(()),
-        1 => with_e!(AllOpt),
-        2 => with_e!(Value),
-        3 => with_e!(Strict),
-        _ => with_e!(Option<Strict>),
+        0 => with_e!((), p0e0, p0e1, p0e2),
+        1 => with_e!(AllOpt, p1e0, p1e1, p1e2),
+        2 => with_e!(Value, p2e0, p2e1, p2e2),
+        3 => with_e!(Strict, p3e0, p3e1, p3e2),
+        _ => with_e!(Option<Strict>, p4e0, p4e1, p4e2),
     };
     if f.has_error {
         sink.goal("reply-with-error-member");
@@ -430,7 +464,7 @@ fn one(fr: &[Frame], i: u64, sink: &mut Sink<'_>) {
 pub fn run(tier: Tier) -> i32 {
     let mut rep = Report::new("C04", tier.name());
     let (fr, nbase) = all_frames();
-    rep.rule = format!("complete product: {} reply frames ({nbase} base frames + each extended by one character or bulked up to 300/1100/2100/4700 bytes in up to four meaning-preserving ways: whitespace, an unknown member in front / at the end, a long string parameter; + each with its member names spelled with JSON escapes; base frames: success / declared unit and struct errors with right, wrong-typed, missing, extra, absent parameters / undeclared errors / the six org.varlink.service errors with and without their parameters / error replies whose parameters fit the expected success type; x continues absent|true|false x every member order) x 5 expected parameter types x 3 error types (derived, derived with lifetime, empty enum) x {{receive_reply, call_method, receive_reply as the second frame of one arrival, receive_reply right after a reply with continues:true}}. Distinct = distinct (frame, types, classification)", fr.len());
+    rep.rule = format!("complete product: {} reply frames ({nbase} base frames + each extended by one character or bulked up to 300/1100/2100/4700 bytes in up to four meaning-preserving ways: whitespace, an unknown member in front / at the end, a long string parameter; + each with its member names spelled with JSON escapes; base frames: success / declared unit and struct errors with right, wrong-typed, missing, extra, absent parameters / undeclared errors / the six org.varlink.service errors with and without their parameters / error replies whose parameters fit the expected success type; x continues absent|true|false x every member order) x 5 expected parameter types x 3 error types (derived, derived with lifetime, empty enum) x {{receive_reply, call_method, receive_reply as the second frame of one arrival, receive_reply right after a reply with continues:true, a generated proxy method}}. Distinct = distinct (frame, types, classification)", fr.len());
     rep.assumptions = vec![
         "an error type recognises a reply whose error name is one of its declared variants and whose parameters are exactly the variant's fields with values of the right types (none for a field-less variant: absent, null or {}); likewise for the six standard errors. This is decided from the reply's JSON value, not with the library's decoders; members of the reply other than error and parameters (continues, unknown ones) do not matter. Where the parameters are ill-formed or have surplus members the statement leaves room: there a reply counts as recognised iff serde_json decodes the frame as the error type".into(),
         "a standard error is one whose name is in org.varlink.service and which decodes as varlink_service::Error; ill-formed ones must simply not be a success".into(),
